@@ -149,6 +149,10 @@ def prog_flat(rng, **kw):
     prog["tree"] = {"name": "r", "algos": rebalance_stack(rng, names, prog), "children": list(names) if declared else []}
     if rng.random() < 0.3:
         prog["tree"]["algos"].insert(0, ["CapitalFlow", {"amount": rng.choice([1000, -500, 250])}])
+    if rng.random() < 0.25:
+        # a user algo that leaves a deferred trade for the engine's closing update
+        t_ = rng.choice(names)
+        prog["tree"]["algos"].append(["DeferredTrade", {"ticker": t_, "q": rng.choice([5, 10, -5])} if rng.random() < 0.5 else {"ticker": t_, "amount": rng.choice([300, 500, -200])}])
     return prog
 
 
